@@ -159,9 +159,13 @@ theorem gen_cut1 (n u1 u2 : Nat) (hn : 2 ≤ n) (hN : n < 9223372036854775808) :
   meval
   rw [gen_sup_idx _ _ (by omega) (by omega)]
   simp only [cuts]
-  rw [Int.natCast_emod]
-  congr 1
-  omega
+  have key : ∀ A : Int, A = (n : Int) - 1 → (u1 : Int) % A = ((u1 % (n - 1) : Nat) : Int) := by
+    intro A hA
+    subst hA
+    rw [Int.natCast_emod]
+    have : ((n - 1 : Nat) : Int) = (n : Int) - 1 := by omega
+    rw [this]
+  exact key _ (by omega)
 
 theorem gen_cut2 (n u1 u2 : Nat) (hn : 2 ≤ n) (hN : n < 9223372036854775808) :
     Gen.gaXo.cut2.eval Gen.randIdx [(n : Int), ((cuts n u1 u2).1 : Int)] u2 = ((cuts n u1 u2).2 : Int) := by
@@ -171,10 +175,15 @@ theorem gen_cut2 (n u1 u2 : Nat) (hn : 2 ≤ n) (hN : n < 9223372036854775808) :
   generalize u1 % (n - 1) = c1 at hs ⊢
   meval
   rw [gen_between_idx _ _ _ (by omega) (by omega) (by omega)]
-  rw [Int.natCast_add, Int.natCast_add, Int.natCast_emod]
-  have : ((n - (c1 + 1) : Nat) : Int) = (n : Int) - ((c1 : Int) + 1) := by omega
-  rw [this]
-  congr 1 <;> (try congr 1) <;> omega
+  have key : ∀ A : Int, A = (c1 : Int) + 1 →
+      A + (u2 : Int) % ((n : Int) - A) = ((c1 + 1 + u2 % (n - (c1 + 1)) : Nat) : Int) := by
+    intro A hA
+    subst hA
+    rw [Int.natCast_add, Int.natCast_add, Int.natCast_emod]
+    have : ((n - (c1 + 1) : Nat) : Int) = (n : Int) - ((c1 : Int) + 1) := by omega
+    rw [this]
+    simp
+  exact key _ (by omega)
 
 theorem age_older_nat (a b : Nat) (ha : a < 4294967296) (hb : b < 4294967296) :
     (Gen.age.older (a : Int) (Gen.age.read (b : Int))).toNat = olderAge a b := by
